@@ -222,7 +222,9 @@ def range_rule(ctx):
             if not ({'try_into', 'try_from'} & set(o.flags)):
                 continue
             first_value_param = 1 if b.j['kind'] == 'closure' or not b.j.get('impl') else 2
-            if any(p >= first_value_param for p in o.params()) or 'upvar' in o.flags:
+            # (serde hands lengths over as usize / Option<usize>: a saturated *length hint* decides no byte of the value)
+            vals = [p for p in o.params() if p >= first_value_param and (b.local_ty(p) or '') not in ('usize', 'core::option::Option<usize>')]
+            if vals or 'upvar' in o.flags:
                 sat += 1
                 ctx.ob('RANGE', '%s/saturating-conversion#%d' % (fn_label(b), sat), False, short_loc(t.get('span')),
                        'the fallible conversion of a value deriving from %s is replaced by a default when it fails (%s): an out-of-range value must reach Err' % (o.describe()[:100], cn.split('::')[-1]))
